@@ -6,7 +6,7 @@
 //     (with unit cur_merging: merged input = the sorted union of the input files => the multiset of entries is conserved);
 //   * a GC hands the multi-builder exactly the entries whose (key, timestamp) the collector emits, adds every other entry
 //     to the discard accumulator, and loses or duplicates nothing: retained ++ discarded is a re-ordering of the input.
-// ASSUMED: SstMultiBuilder::put/del append the entry to its output (blocks: units sst_blockb/sst_block; files not covered);
+// SstMultiBuilder::put/del append the entry to its output: contract PROVED in unit sst_multi (blocks: units sst_blockb/sst_block);
 // the three-statement setsum update is read as `discard += setsum(entry)`; KeyRef ordering as proved in sst_kernels.
 use vstd::prelude::*;
 use std::cmp::Ordering;
